@@ -798,14 +798,24 @@ class Sim(object):
             out += [k, n, h, p, c]
         return out
 
+    @staticmethod
+    def asked_of(ld):
+        """what the lookup asked for, as parsed from the wire: (kind, topic or group id); None = no request was seen"""
+        if ld.get("kind") is None or ld.get("asked") is None:
+            return None
+        if ld["kind"] == 0:
+            return (0, ld["asked"][0] if len(ld["asked"]) == 1 else -2)       # nested lookups ask for ONE topic
+        return (1, ld["asked"])
+
     def enc_loads(self, loads, coord):
         out = [len(loads)]
         for ld in loads:
+            obs = 1 if self.asked_of(ld) is not None else 0
             if coord:
                 c = ld["resp"] if ld["resp"] is not None else (15, -1, 0, 0)
-                out += [1] + self.enc_uscript(ld) + list(c)
+                out += [1, obs] + self.enc_uscript(ld) + list(c)
             else:
-                out += [0] + self.enc_uscript(ld) + self.enc_raw(ld["resp"])
+                out += [0, obs] + self.enc_uscript(ld) + self.enc_raw(ld["resp"])
         return out
 
     @staticmethod
@@ -819,7 +829,7 @@ class Sim(object):
     def emit_reqs(loads, reqs):
         out = [len(loads)]
         for ld in loads:
-            out += Sim.emit_log(ld)
+            out += list(Sim.asked_of(ld) or (-1, -1)) + Sim.emit_log(ld)
         out.append(len(reqs))
         for q in reqs:
             out += [q["node"], q["addr"][0], q["addr"][1]] + lp(q["tags"] if q["code"] != 2 and q["tags"] is not None else [-1])
